@@ -12,6 +12,7 @@
    A change of the source expression changes the definition, and the lemmas here (and the refinement proofs) are re-checked. *)
 From Coq Require Import ZArith NArith Lia Bool.
 From JB Require Import Constants TreeOps Path PathSem.
+From JB Require PathParse.
 Local Open Scope Z_scope.
 Set Default Timeout 30.
 
@@ -221,6 +222,11 @@ Proof.
   unfold last_minus. ranges. intros H. destruct (v =? -9223372036854775808) eqn:E; [discriminate|].
   destruct ((-2147483648 <=? - v) && (- v <=? 2147483647)) eqn:R; [|discriminate]. intros [= <-]. lia.
 Qed.
+(* the definition above is a copy, written with literals: it IS the function the parser model applies (PathParse.pindex) *)
+Lemma last_minus_is_the_parsers v : last_minus v = PathParse.last_minus v.
+Proof. reflexivity. Qed.
+Lemma parser_last_minus_in_range v n : i64 v -> PathParse.last_minus v = Some n -> n = - v /\ i32 n /\ i64 (- v).
+Proof. rewrite <- last_minus_is_the_parsers. apply last_minus_in_range. Qed.
 (* before that fix `last - v` read an i32 and used saturating_neg: in range, but `last-2147483648` (what the offset
    i32::MIN prints as) was rejected and `last - -2147483648` silently became last+2147483647 *)
 Definition saturating_neg32 (v : Z) : Z := if v =? -2147483648 then 2147483647 else - v.
